@@ -87,6 +87,8 @@ func (o c11Op) expect() c11Res {
 		return c11Res{B: true}
 	case "lookup", "url":
 		return o.run()
+	case "hotp-err", "totp-err", "ocra-err": // failing calls: an error and nothing else, whatever happened before
+		return c11Res{Err: true}
 	}
 	return c11Res{}
 }
@@ -123,6 +125,42 @@ func (o c11Op) run() c11Res {
 		}
 		okk, err := otp.ValidateOCRA(secret, code, su, toLibIn(o.In))
 		return c11Res{B: okk, Err: err != nil}
+	case "hotp-err":
+		// Dist selects how the call is made to fail: undecodable secret (4 shapes), unsupported digits, unsupported hash
+		switch {
+		case o.Dist >= 2:
+			s, err := otp.GenerateHOTP(corrupt(secret+"AAAAAAAA", int(o.Counter%97)), o.Counter, p)
+			return c11Res{S: s, Err: err != nil}
+		case o.Dist >= 0:
+			s, err := otp.GenerateHOTP(secret, o.Counter, &otp.Param{Digits: otp.Digits(11 + o.Skew), Algorithm: otp.Algorithm(o.Algo)})
+			return c11Res{S: s, Err: err != nil}
+		default:
+			b, err := otp.ValidateHOTP(secret, "123456", o.Counter, &otp.Param{Digits: 6, Algorithm: otp.Algorithm(3 + o.Algo), Skew: 1})
+			return c11Res{B: b, Err: err != nil}
+		}
+	case "totp-err":
+		b, err := otp.ValidateTOTP(corrupt(secret+"AAAAAAAA", int(o.Counter%89)), "123456", time.Unix(int64(o.Counter), 0), p)
+		return c11Res{B: b, Err: err != nil}
+	case "ocra-err":
+		su, cfg := o.suite()
+		in := o.In
+		switch { // break one selected field, or use an undecodable secret
+		case cfg.Q:
+			in.Q = make([]byte, 129+o.Skew)
+		case cfg.C:
+			in.C = in.C[:7]
+		case cfg.T:
+			in.T = nil
+		default:
+			s, err := otp.GenerateOCRA("!"+secret, su, toLibIn(in))
+			return c11Res{S: s, Err: err != nil}
+		}
+		if o.Dist == 0 {
+			s, err := otp.GenerateOCRA(secret, su, toLibIn(in))
+			return c11Res{S: s, Err: err != nil}
+		}
+		b, err := otp.ValidateOCRA(secret, "000000", su, toLibIn(in))
+		return c11Res{B: b, Err: err != nil}
 	case "lookup":
 		su, err := otp.NewRawSuite(o.Text)
 		s := fmt.Sprintf("%v|%+v", otp.IsKnownSuite(o.Text), otp.SuiteConfigFromRaws(o.Text))
@@ -231,11 +269,11 @@ func checkC11Seq(c c11SeqCase) verdict {
 }
 
 var c11Seq = newPart("C11", "sequential-adversary",
-	"rapid: sequential histories of 1..50 mixed calls (HOTP/TOTP/OCRA generation and validation, OCRA messages below and above the 256-byte pooled buffer, suite lookups, URL generation+parsing) interleaved with double garbage collections (emptying the pools and their victim caches) and an adversary that Gets buffers from both library pools through the verif hook, overwrites their full capacity, Puts them back and donates poisoned fresh buffers; invariant after every step: the result equals the reference value for the arguments alone, and every result string ever returned is still byte-identical to an independent copy; non-trivial = history with adversary or GC steps and >= 3 kinds of operation",
+	"rapid: sequential histories of 1..50 mixed calls (HOTP/TOTP/OCRA generation and validation, OCRA messages below and above the 256-byte pooled buffer, suite lookups, URL generation+parsing) and FAILING calls (undecodable secrets in four shapes, unsupported digits / hash, inadmissible OCRA inputs: an error and nothing else is expected, and later calls must be unaffected), interleaved with double garbage collections (emptying the pools and their victim caches) and an adversary that Gets buffers from both library pools through the verif hook, overwrites their full capacity, Puts them back and donates poisoned fresh buffers; invariant after every step: the result equals the reference value for the arguments alone, and every result string ever returned is still byte-identical to an independent copy; non-trivial = history with adversary or GC steps and >= 3 kinds of operation",
 	checkC11Seq)
 
 func drawC11Op(t *rapid.T, allowHostile bool) c11Op {
-	kinds := []string{"hotp-gen", "hotp-gen", "hotp-val", "totp-gen", "totp-val", "ocra-gen", "ocra-gen", "ocra-gen", "ocra-val", "lookup", "url"}
+	kinds := []string{"hotp-gen", "hotp-gen", "hotp-val", "totp-gen", "totp-val", "ocra-gen", "ocra-gen", "ocra-gen", "ocra-val", "lookup", "url", "hotp-err", "totp-err", "ocra-err"}
 	if allowHostile {
 		kinds = append(kinds, "gc", "adversary", "adversary")
 	}
@@ -349,6 +387,7 @@ func raceText() string {
 }
 
 func checkC11Conc(c c11ConcCase) verdict {
+	defer ev.Inflight("C11", "concurrent-race", c)()
 	old := runtime.GOMAXPROCS(c.Procs)
 	defer runtime.GOMAXPROCS(old)
 	// sequential reference first
@@ -465,7 +504,7 @@ func checkC11Conc(c c11ConcCase) verdict {
 }
 
 var c11Conc = newPart("C11", "concurrent-race",
-	"rapid-drawn scripts (pure function of the seed): 1..64 goroutine programs of 1..12 mixed calls each, run for 1..3 rounds at GOMAXPROCS in {1,2,4,16} together with 0..2 adversary goroutines (Get/overwrite/Put on both library pools) and an optional GC goroutine, in a -race build; oracles: every result equals the sequential reference computed beforehand, retained result strings stay identical, and the race detector (GORACE log inspected after every script) reports nothing; non-trivial = >= 2 goroutines mixing >= 2 kinds of operation, or adversary/GC goroutines present; a failure stores the script itself, since the schedule cannot be replayed",
+	"rapid-drawn scripts (pure function of the seed): 1..64 goroutine programs of 1..12 mixed calls each (incl. failing calls; in half of the scripts all goroutines share one to three secrets), run for 1..3 rounds at GOMAXPROCS in {1,2,4,16} together with 0..2 adversary goroutines (Get/overwrite/Put on both library pools) and an optional GC goroutine, in a -race build; oracles: every result equals the sequential reference computed beforehand, retained result strings stay identical, and the race detector (GORACE log inspected after every script) reports nothing; non-trivial = >= 2 goroutines mixing >= 2 kinds of operation, or adversary/GC goroutines present; a failure stores the script itself, since the schedule cannot be replayed",
 	checkC11Conc)
 
 func TestC11_Concurrent(t *testing.T) {
@@ -479,6 +518,15 @@ func TestC11_Concurrent(t *testing.T) {
 				prog = append(prog, drawC11Op(t, false))
 			}
 			c.Progs = append(c.Progs, prog)
+		}
+		if rapid.Bool().Draw(t, "sharedKeys") {
+			// goroutines working with the SAME one to three secrets at the same time
+			shared := rapid.SliceOfN(rapid.SliceOfN(rapid.Byte(), 1, 40), 1, 3).Draw(t, "shared")
+			for g := range c.Progs {
+				for i := range c.Progs[g] {
+					c.Progs[g][i].Key = shared[(g+i)%len(shared)]
+				}
+			}
 		}
 		return c
 	})
